@@ -44,19 +44,22 @@ def _pub():
 
 def _guard(fn):
     """Run fn() under the watchdog; returns (outcome, detail, seconds)."""
-    old = signal.signal(signal.SIGALRM, _alarm)
-    signal.alarm(WATCHDOG_S)
-    t0 = time.time()
+    # CPU time of this process, not wall-clock time: a loaded machine must
+    # not look like unbounded work
+    old = signal.signal(signal.SIGVTALRM, _alarm)
+    signal.setitimer(signal.ITIMER_VIRTUAL, WATCHDOG_S)
+    t0 = time.process_time()
     try:
         out = fn()
-        return out[0], out[1], time.time() - t0
+        return out[0], out[1], time.process_time() - t0
     except Watchdog:
-        return 'hang', f'still running after {WATCHDOG_S} s', time.time() - t0
+        return 'hang', f'still running after {WATCHDOG_S} s of CPU time', \
+            time.process_time() - t0
     except Spin as exc:
-        return 'hang', f'event loop spins: {exc}', time.time() - t0
+        return 'hang', f'event loop spins: {exc}', time.process_time() - t0
     finally:
-        signal.alarm(0)
-        signal.signal(signal.SIGALRM, old)
+        signal.setitimer(signal.ITIMER_VIRTUAL, 0)
+        signal.signal(signal.SIGVTALRM, old)
 
 
 def _finish(loop, closers=()):
